@@ -15,6 +15,7 @@
 (*   mhb      merged highest-before vector of an event (seq per validator, -1 = fork)              *)
 (*   end      end of an epoch's / scenario's event stream: nothing decidable may be left           *)
 (*   crit     the instance reported a critical error (allowed only in byz runs)                   *)
+(*   panic    the library panicked: no step of the specification matches, the trace is rejected   *)
 (* Process is split into two spec actions (add the event; run the reference election) because      *)
 (* TLC evaluates the election on the state that already contains the new event.                    *)
 EXTENDS Integers, Sequences, FiniteSets, TLC, Json, IOUtils
